@@ -450,12 +450,12 @@ func plans() map[string]*propertyPlan {
 		},
 		"C20": {
 			level:       "fault_enumeration",
-			rule:        "every text over the alphabet up to the length bound x 5 prefixes x every division into non-empty Write calls (a seventh of them also with empty writes interleaved) x every byte budget 0..len(output) of the underlying writer; a case is non-trivial when it has at least two chunks and a budget that cuts the output short; all cases are distinct by construction",
+			rule:        "every text over the alphabet up to the length bound x 7 prefixes (two of them made of the texts' own characters) x every division into non-empty Write calls (a seventh of them also with empty writes interleaved) x every byte budget 0..len(output) of the underlying writer; plus buffers of 16 sizes around powers of two up to 256 KiB (quick) / 4 MiB (thorough) (6 line lengths, 3 prefixes, one or two Write calls, ~35 stop positions each, not exhaustive); a case is non-trivial when it has at least two chunks and a budget that cuts the output short; all cases are distinct by construction",
 			assumptions: []string{"the underlying writer honours io.Writer: n < len(p) implies a non-nil error", "behaviour after a failed Write is unspecified and not driven"},
 			minObserved: map[string]int64{"cases": 1000},
-			nontrivial:  "nontrivial", evaluations: "cases", exhaustive: true,
-			quick:    []spec{{family: "enum", shards: 16, params: map[string]string{"alphabet": "ab\n", "maxlen": "6"}, cpuS: 600, asKB: 8 << 20, wallS: 900}},
-			thorough: []spec{{family: "enum", shards: 64, params: map[string]string{"alphabet": "ab\n", "maxlen": "8"}, cpuS: 3600, asKB: 8 << 20, wallS: 5400}, {family: "enum", shards: 16, params: map[string]string{"alphabet": "a\n", "maxlen": "10"}, cpuS: 3600, asKB: 8 << 20, wallS: 5400}},
+			nontrivial:  "nontrivial", evaluations: "cases,large_cases", exhaustive: true,
+			quick:    []spec{{family: "enum", shards: 16, params: map[string]string{"alphabet": "ab\n", "maxlen": "6"}, cpuS: 600, asKB: 8 << 20, wallS: 900}, {family: "large", shards: 16, cpuS: 600, asKB: 8 << 20, wallS: 900}},
+			thorough: []spec{{family: "enum", shards: 64, params: map[string]string{"alphabet": "ab\n", "maxlen": "8"}, cpuS: 3600, asKB: 8 << 20, wallS: 5400}, {family: "enum", shards: 16, params: map[string]string{"alphabet": "a\n", "maxlen": "10"}, cpuS: 3600, asKB: 8 << 20, wallS: 5400}, {family: "large", shards: 16, cpuS: 600, asKB: 8 << 20, wallS: 900}},
 		},
 	}
 }
